@@ -180,6 +180,7 @@ def h_overtime(run, cfg):
 
 
 HARNESSES = {'rebal': h_rebal, 'subtarget': h_subtarget, 'overtime': h_overtime}
+DECIMAL_REPLAYS = {'quick': 2, 'thorough': 4}      # witnesses also replayed on two-decimal inputs (solver models are dyadic: floats exact there)
 WITNESS_CAP = {'quick': 120, 'thorough': 300}
 
 TARGETS = [[['a', 0.625], ['b', 0.25]], [['a', 0.5], ['b', -0.25]], [['a', -0.375], ['b', 0.75]], [['b', 1.0]], [['a', 0.25], ['b', 0.25], ['c', 0.25]],
